@@ -454,7 +454,7 @@ func shapeOf(p *lpkg, fd *ast.FuncDecl) (shape []string, guards []string) {
 			}
 		case *ast.CaseClause:
 			for _, ce := range x.List {
-				if mentionsLenCap(p, ce) || hasOrdering(ce) {
+				if mentionsLenCap(p, ce) || hasOrdering(ce) || strings.Contains(p.Src(ce), " nil") { // incl. `x != nil` conjuncts (nil-interface calls panic)
 					shape = append(shape, "case "+p.Src(ce))
 				}
 			}
@@ -625,6 +625,43 @@ func main() {
 			}
 			l.Raw(fmt.Sprintf("/-- every call of conn.Addr.IP/IPPort/Domain (contract: panic on the wrong kind) with its dominating guard -/\ndef accessorSites : List String := %s\n", gen.LeanStrList(all)))
 			l.Raw(fmt.Sprintf("/-- the call sites whose guard does not by itself establish the accessor's precondition -/\ndef unguardedAccessorSites : List String := %s\n", gen.LeanStrList(unguarded)))
+		}
+		// client UDP unpacker: does every switch case that takes a session slot's AEAD (`saead = p.<slot>AEAD`) also require
+		// `p.<slot>AEAD != nil`? (both slots start as {id 0, nil AEAD}: without the conjunct a header with session id 0 selects a nil AEAD)
+		{
+			fd, err := ss.Func("*ShadowPacketClientUnpacker", "UnpackInPlace")
+			if err != nil {
+				return err
+			}
+			takes, guarded := 0, 0
+			ast.Inspect(fd.Body, func(n ast.Node) bool {
+				cc, ok := n.(*ast.CaseClause)
+				if !ok {
+					return true
+				}
+				for _, st := range cc.Body {
+					as, ok := st.(*ast.AssignStmt)
+					if !ok || len(as.Lhs) != 1 || len(as.Rhs) != 1 || ss.Src(as.Lhs[0]) != "saead" {
+						continue
+					}
+					rhs := ss.Src(as.Rhs[0])
+					if !strings.HasPrefix(rhs, "p.") || !strings.HasSuffix(rhs, "AEAD") {
+						continue
+					}
+					takes++
+					for _, ce := range cc.List {
+						if strings.Contains(" "+ss.Src(ce)+" ", " "+rhs+" != nil ") || strings.HasSuffix(ss.Src(ce), rhs+" != nil") {
+							guarded++
+							break
+						}
+					}
+				}
+				return true
+			})
+			if takes == 0 {
+				return fmt.Errorf("ss2022.(*ShadowPacketClientUnpacker).UnpackInPlace: no `saead = p.<slot>AEAD` case found (the session-slot model no longer mirrors the code)")
+			}
+			l.BoolDef("clientUnpackerGuardsNilAEAD", takes == guarded, "ss2022.(*ShadowPacketClientUnpacker).UnpackInPlace: every case that takes a slot's AEAD requires it to be non-nil")
 		}
 		// F4: does the service refuse `direct` + tunnelUDPTargetOnly + non-IP tunnelRemoteAddress at load?
 		sv, err := ld.Load("service")
